@@ -123,7 +123,7 @@ CNext ==
 CSpec == CInit /\ [][CNext]_cvars
 
 \* glog (the order of the grants) and out do not influence what can still be explained
-CView == <<rate, burst, now, srv, tok, ts, ttlx, alive, mode, mon, rtok, rlast, rused, ib, rd, ph, plan, rem, xtr>>
+CView == <<rate, burst, now, sub, srv, tok, ts, ttlx, alive, mode, mon, rtok, rlast, rused, rfull, qtok, qlast, ib, rd, ph, plan, rem, xtr>>
 
 Accepted == Explained /\ Len(plan) = 1
 
